@@ -73,7 +73,7 @@ LOG="$OUT/artifacts/$ID/last-$MODE.log"
 BIN="$(build_check "$ID")" || { echo "INCONCLUSIVE property=$ID build failed"; exit 3; }
 export VERIF_GO="$GO" VERIF_REPO="$REPO" VERIF_MODFLAG="$MODFLAG"
 
-if [ "$MODE" = thorough ]; then WD="${VERIF_WATCHDOG:-7200}"; GT=7000s; else WD="${VERIF_WATCHDOG:-900}"; GT=850s; fi
+if [ "$MODE" = thorough ]; then WD="${VERIF_WATCHDOG:-7200}"; GT=7000s; else WD="${VERIF_WATCHDOG:-1500}"; GT=1450s; fi
 
 export GORACE="halt_on_error=1 exitcode=66"
 rm -f "$OUT/evidence/$ID.json" "$OUT/artifacts/$ID/$MODE-seed$VERIF_SEED-"*
